@@ -509,6 +509,14 @@ def check_property(pid, tier, scratch, write_baseline=False):
             for x in ev["coverage"]["sabotage"]["missed"]:
                 print("   missed: " + x)
             rc = 2
+        bm = bounded_mutants_selftest(P, scratch)
+        if bm is not None:
+            ev["coverage"]["bounded_mutants"] = bm
+            if bm["applied"] != bm["killed"]:
+                print("UNDECIDED: bounded stand-in self-test: %d of %d deliberate breakages of the real code were noticed" % (bm["killed"], bm["applied"]))
+                for x in bm["missed"]:
+                    print("   missed: " + x)
+                rc = 2
         ev["wall_s"] = round(time.time() - t0, 2)
     json.dump(ev, open(os.path.join(VERIF, "evidence", pid + ".json"), "w"), indent=1)
     print("%s %s: %d/%d obligations discharged (%d named clauses, %d functions under contract, %d assumed), probes %d/%d rejected, solver %.1fs, wall %.1fs -> exit %d"
@@ -560,6 +568,64 @@ def sabotage_selftest(P, scratch, rl):
             else:
                 missed.append("%s line %d: %s with /%s/ => %s still verifies" % (u, n, fn, pat, rep))
     return dict(applied=applied, rejected=rejected, missed=missed)
+
+
+def bounded_mutants_selftest(P, scratch):
+    """thorough tier: the vacuity guard of the always-on bounded stand-ins.  contracts/bounded/<unit>.mutants lists
+    deliberate one-line breakages of /repo's source (harness function, file, regex, replacement); each is applied to a
+    scratch copy of the tree and the stand-in for that function must report a failing input (DESIGN 2.5.5)."""
+    from vx import bounded
+    jobs = []
+    for u, fns in P.get("bounded_always", {}).items():
+        mp = os.path.join(CONTRACTS, "bounded", u + ".mutants")
+        if not os.path.exists(mp):
+            continue
+        for n, line in enumerate(open(mp), 1):
+            line = line.rstrip("\n")
+            if not line.strip() or line.startswith("#"):
+                continue
+            fn, rel, pat, rep = line.split("\t")
+            rep = rep.replace("\\n", "\n")
+            if fn in fns:
+                jobs.append((u, n, fn, rel, pat, rep))
+    if not jobs:
+        return None
+    def one(j):
+        u, n, fn, rel, pat, rep = j
+        root = os.path.join(scratch, "mutant_%s_%d" % (u, n))
+        tree = os.path.join(root, "tree")
+        os.makedirs(tree)
+        for name in ("src", "slotted-egraphs-derive", "Cargo.toml", "Cargo.lock"):
+            q = os.path.join(REPO, name)
+            if os.path.isdir(q):
+                shutil.copytree(q, os.path.join(tree, name))
+            elif os.path.exists(q):
+                shutil.copy(q, os.path.join(tree, name))
+        fp = os.path.join(tree, rel)
+        try:
+            text = open(fp).read()
+        except OSError:
+            return j, "file %s not found" % rel
+        new, k = re.subn(pat, lambda m: rep, text)
+        if k != 1:
+            shutil.rmtree(root, ignore_errors=True)
+            return j, "pattern applies %d times in %s" % (k, rel)
+        open(fp, "w").write(new)
+        br = bounded.run(u, [fn], tree, root)
+        shutil.rmtree(root, ignore_errors=True)
+        if not br["ran"]:
+            return j, "harness did not run on the mutant: " + br.get("note", "")[:200]
+        return j, (None if br["failures"] else "harness finds nothing")
+    applied = killed = 0
+    missed = []
+    with cf.ThreadPoolExecutor(max_workers=4) as ex:
+        for j, why in ex.map(one, jobs):
+            applied += 1
+            if why is None:
+                killed += 1
+            else:
+                missed.append("%s line %d (%s, %s): %s" % (j[0], j[1], j[2], j[3], why))
+    return dict(applied=applied, killed=killed, missed=missed)
 
 
 def replay(pid, path, scratch):
